@@ -523,6 +523,13 @@ func init() {
 			for i := 0; i < conc; i++ {
 				cs = append(cs, CaseSpec{Kind: "concurrent", P: map[string]int64{"rounds": int64(60 + 20*(i%3))}, S: map[string]string{"mode": []string{"socket", "socket", "inmem", "socket"}[i%4]}})
 			}
+			busy := 3
+			if tier == "thorough" {
+				busy = 20
+			}
+			for i := 0; i < busy; i++ {
+				cs = append(cs, CaseSpec{Kind: "busy", P: map[string]int64{"clients": int64(1 + i%3), "timeout_ms": int64(300 + 100*(i%3)), "busy_timeouts": int64(3 + i%2)}})
+			}
 			cs = append(cs, CaseSpec{Kind: "concurrent", P: map[string]int64{"rounds": 40}, S: map[string]string{"mode": "socket", "race": "1"}})
 			for i := 0; i < 2*raceSoaks(tier); i++ {
 				c := CaseSpec{Kind: "proxy", P: map[string]int64{"rounds": 40}, S: map[string]string{"mode": []string{"socket", "inmem"}[i%2], "race": "1"}}
@@ -538,6 +545,9 @@ func init() {
 		Run: func(cs CaseSpec) *CaseResult {
 			if cs.Kind == "concurrent" {
 				return runC20Concurrent(cs)
+			}
+			if cs.Kind == "busy" {
+				return runC20Busy(cs)
 			}
 			return runC20(cs)
 		},
